@@ -1,5 +1,6 @@
 mod bddops;
 mod gen;
+mod hist;
 mod sem;
 mod util;
 
@@ -12,6 +13,7 @@ fn main() {
     match args[1].as_str() {
         "sem" => sem::main(&args[2..]),
         "bdd" => bddops::main(&args[2..]),
+        "hist" => hist::main(&args[2..]),
         other => {
             eprintln!("unknown subcommand {}", other);
             std::process::exit(2);
